@@ -153,9 +153,17 @@ def preparedH : Handler := fun j => do
   let ls ← getLabels (← j.getObjVal? "labels")
   pure (Json.mkObj [("r", jPairs jPoors (preparedLabels ls))])
 
+def preparedTaxaH : Handler := fun j => do
+  let ts ← getTaxa (← j.getObjVal? "labels")
+  pure (Json.mkObj [("r", jPairs jPoors (preparedTaxa ts))])
+
 def collectH : Handler := fun j => do
   let occ ← getDict getName (← j.getObjVal? "occ")
   pure (Json.mkObj [("r", jPairs jNames (sortKeys (collect occ)))])
+
+def collectLabelsH : Handler := fun j => do
+  let occ ← getDict getName (← j.getObjVal? "occ")
+  pure (Json.mkObj [("r", jPairs jNames (sortKeys (collectNew occ)))])
 
 def lineNumbers : Handler := fun j => do
   let s ← getName (← j.getObjVal? "source")
@@ -165,6 +173,6 @@ def handlers : List (String × Handler) :=
   [("c11.model", model), ("c11.spec", spec), ("c11.closure", closure),
    ("c11.spec_closure", specClosure), ("c11.exportations", exportationsH),
    ("c11.spec_exportations", specExportationsH), ("c11.relabel", relabelH),
-   ("c11.prepared", preparedH), ("c11.collect", collectH), ("c11.line_numbers", lineNumbers)]
+   ("c11.prepared", preparedH), ("c11.prepared_taxa", preparedTaxaH), ("c11.collect", collectH), ("c11.collect_labels", collectLabelsH), ("c11.line_numbers", lineNumbers)]
 
 end Driver.C11
